@@ -131,3 +131,18 @@ Definition src_tables_agree (su : list kind) (swh : kind) (sw : list kind)
   kinds_eqb su single_u_table && (kind_code swh =? kind_code single_whist) && kinds_eqb sw single_w_table
   && kinds_eqb mu many_u_table && (kind_code mwh =? kind_code many_whist) && kinds_eqb mw many_w_table
   && Qeq_bool sent sentinel && Qeq_bool wh0 whist_empty && sf_eqb cf center_factor.
+
+(* several of binsize= / nbin= / nperbin= given together (or none): the output is the one of the
+   keyword that wins *)
+Inductive anyout := OBinned (o : result iout) | ONum (o : result inum).
+
+Definition v_resolved (via_histogram : bool) (c : cols) (rv : bool) (lo hi : option float)
+           (bs : option float) (nb k : option Z) (merge : bool) (out : anyout) : Z :=
+  match resolve via_histogram bs nb k, out with
+  | CNum k', ONum o => v_num c lo hi k' merge o
+  | CNum k', OBinned (Err e) => v_num c lo hi k' merge (Err e)
+  | CMode m, OBinned o => v_binned c rv lo hi m o
+  | CMode m, ONum (Err e) => v_binned c rv lo hi m (Err e)
+  | CNone, OBinned (Err e) | CNone, ONum (Err e) => if err_eqb e EValue then 0 else 1
+  | _, _ => 3
+  end.
